@@ -264,7 +264,9 @@ impl<R: DebugBufRead> SymEncryptedProtectedDataReader<R> {
                     (buf.is_empty(), true)
                 }
                 Source::Done(_) => (false, true),
-                Source::Error => panic!("SymEncryptedProtectedDataReader errored"),
+                Source::Error => {
+                    return Err(io::Error::other("SymEncryptedProtectedDataReader errored"))
+                }
             };
 
             if needs_replacing {
@@ -295,7 +297,7 @@ impl<R: DebugBufRead> BufRead for SymEncryptedProtectedDataReader<R> {
             Source::BodyDecryptor(decryptor) => decryptor.fill_buf(),
             Source::BodyRaw(source) => source.fill_buf(),
             Source::Done(_) => Ok(&[][..]),
-            Source::Error => panic!("SymEncryptedProtectedDataReader errored"),
+            Source::Error => Err(io::Error::other("SymEncryptedProtectedDataReader errored")),
         }
     }
 
@@ -322,7 +324,7 @@ impl<R: DebugBufRead> Read for SymEncryptedProtectedDataReader<R> {
             Source::BodyDecryptor(decryptor) => decryptor.read(buf),
             Source::BodyRaw(source) => source.read(buf),
             Source::Done(_) => Ok(0),
-            Source::Error => panic!("SymEncryptedProtectedDataReader errored"),
+            Source::Error => Err(io::Error::other("SymEncryptedProtectedDataReader errored")),
         }
     }
 }
